@@ -101,7 +101,7 @@ def main(pid, tier, replay=None):
         with open(replay) as f:
             insts = [json.load(f)["instance"]]
     else:
-        insts = instances(seed, 1500 if thorough else 250)
+        insts = instances(seed, 12000 if thorough else 250)
     job = os.path.join(res.wd, "job.json")
     trace = os.path.join(res.wd, "trace.ndjson")
     with open(job, "w") as f:
@@ -130,7 +130,7 @@ def main(pid, tier, replay=None):
         res.notes["binding_selftest"] = st
         if st and not st["rejected"]:
             raise core.ToolError("binding self-test failed")
-    n = 1 if replay else (10 if thorough else 5)
+    n = 1 if replay else (14 if thorough else 5)
     parts = [cases[i::n] for i in range(n)]
     with concurrent.futures.ThreadPoolExecutor(max_workers=n) as ex:
         results = list(ex.map(lambda a: validate(res, a[0], a[1]), enumerate(parts)))
